@@ -21,6 +21,7 @@ import operator
 import os
 import re
 import time
+import zlib
 
 from vf.core import Check, REPO, HarnessError
 
@@ -28,7 +29,8 @@ MODULES = ["Sem.ThreeVL", "Model.Simplify", "Proofs.Simplify", "Generated.C06", 
 P = "SqlglotModel.Properties.C06."
 THEOREMS = [P + n for n in [
     "generated_complement_ok", "generated_inverse_ok", "generated_inverse_ops_ok", "generated_subflip_ok",
-    "generated_pipeline_known",
+    "generated_pipeline_known", "generated_parens_guard_reparse_safe", "simplify_parens_text_safe", "parens_known_unsafe_witness",
+    "generated_parens_guard_matches_model",
     "rewrite_between_sound", "simplify_not_sound", "conn_const_sound", "conn_const_exact", "bin_pair_sound",
     "simplify_neg_neg_sound", "simplify_equality_sound", "simplify_parens_sound", "flatten_sound",
     "simplify_conditionals_if_sound", "simplify_conditionals_sound", "simplify_conditionals_needs_first_branch",
@@ -92,6 +94,88 @@ def pipeline_from_ast(chk: Check):
     return pre, post
 
 
+PKINDS = ["none", "func", "paren", "or", "and", "not", "eq", "rel", "is", "between", "inList", "add", "sub", "mul", "neg", "atom"]
+
+
+def parens_guard_from_ast(chk: Check):
+    """The guard list of simplify_parens as a Lean Bool expression over (kind of `this`, kind of `parent`) plus the class
+    facts it mentions (issubclass on a representative class per kind): which (this, parent) pairs lose their parentheses."""
+    exp, S, N = sg()
+    reps = {"none": None, "func": exp.Coalesce, "paren": exp.Paren, "or": exp.Or, "and": exp.And, "not": exp.Not, "eq": exp.EQ,
+            "rel": exp.LT, "is": exp.Is, "between": exp.Between, "inList": exp.In, "add": exp.Add, "sub": exp.Sub, "mul": exp.Mul,
+            "neg": exp.Neg, "atom": exp.Column}
+    src = open(os.path.join(REPO, "sqlglot", "optimizer", "simplify.py"), encoding="utf-8").read()
+    fn = next((n for n in ast.parse(src).body if isinstance(n, ast.FunctionDef) and n.name == "simplify_parens"), None)
+    classes = set()
+    unknown = []
+    aliases = {}
+
+    def cls_names(node):
+        if isinstance(node, ast.Tuple):
+            return [x for e in node.elts for x in cls_names(e)]
+        if isinstance(node, ast.Attribute) and isinstance(node.value, ast.Name) and node.value.id == "exp":
+            return [node.attr]
+        raise ValueError(ast.dump(node))
+
+    def tr(node):
+        if isinstance(node, ast.BoolOp):
+            op = " && " if isinstance(node.op, ast.And) else " || "
+            return "(" + op.join(tr(v) for v in node.values) + ")"
+        if isinstance(node, ast.UnaryOp) and isinstance(node.op, ast.Not):
+            return "(!" + tr(node.operand) + ")"
+        if isinstance(node, ast.Name) and node.id in aliases:
+            return aliases[node.id]
+        if isinstance(node, ast.Call) and isinstance(node.func, ast.Name) and node.func.id == "isinstance" and len(node.args) == 2:
+            subj = node.args[0]
+            try:
+                names = cls_names(node.args[1])
+            except ValueError:
+                names = None
+            if names is not None and isinstance(subj, ast.Name) and subj.id in ("this", "parent"):
+                classes.update(names)
+                v = "t" if subj.id == "this" else "p"
+                return "(" + " || ".join(f"kindIsA {v} {json.dumps(n)}" for n in names) + ")"
+            if names == ["Paren"] and isinstance(subj, ast.Name) and subj.id == "expression":
+                return "true"
+        unknown.append(ast.unparse(node))
+        return "true"  # an atom the model does not know: assume it may hold
+
+    steps = []
+    ok = fn is not None
+    if ok:
+        for st in fn.body:
+            if isinstance(st, ast.Assign) and len(st.targets) == 1 and isinstance(st.targets[0], ast.Name):
+                nm = st.targets[0].id
+                if nm in ("this", "parent"):
+                    continue
+                aliases[nm] = tr(st.value)
+            elif isinstance(st, ast.If) and len(st.body) == 1 and isinstance(st.body[0], ast.Return) and not st.orelse \
+                    and isinstance(st.body[0].value, ast.Name) and st.body[0].value.id in ("this", "expression"):
+                steps.append((tr(st.test), st.body[0].value.id == "this"))
+            elif isinstance(st, ast.Return) and isinstance(st.value, ast.Name) and st.value.id in ("this", "expression"):
+                steps.append(("true", st.value.id == "this"))
+            elif isinstance(st, ast.Expr) and isinstance(st.value, ast.Constant):
+                continue
+            else:
+                ok = False
+    if not ok or not steps:
+        chk.broken.append({"kind": "translator", "what": "C06 translator: structure changed: simplify_parens is not a list of guarded returns"})
+        steps = [("true", False)]
+    body = ""
+    for cond, drop in steps:
+        body += f"  if {cond} then {'true' if drop else 'false'} else\n"
+    body += "  false\n"
+    rows = []
+    for k in PKINDS:
+        c = reps[k]
+        yes = sorted(n for n in classes if c is not None and hasattr(exp, n) and issubclass(c, getattr(exp, n)))
+        rows.append(f"  | .{k}, s => " + (" || ".join(f"s == {json.dumps(n)}" for n in yes) if yes else "false"))
+    chk.cov["parens_guard"] = {"steps": len(steps), "classes": sorted(classes), "unknown_atoms": unknown}
+    return ("def kindIsA : PKind → String → Bool\n" + "\n".join(rows) + "\n"
+            "/-- the guard list of simplify_parens (ast of the source): are the parentheses of a `t` under a `p` dropped? -/\n"
+            "def parensGuard (t p : PKind) : Bool :=\n" + body)
+
+
 def translate(chk: Check) -> str:
     exp, S, N = sg()
     from sqlglot.dialects.dialect import Dialect, Dialects
@@ -147,6 +231,7 @@ def translate(chk: Check) -> str:
         + "-- (dialect, SAFE_TO_ELIMINATE_DOUBLE_NEGATION, COALESCE_COMPARISON_NON_STANDARD)\n"
         + "def dialectFlags : List (String × Bool × Bool) := ["
         + ", ".join(f"({json.dumps(n)}, {'true' if a else 'false'}, {'true' if b else 'false'})" for n, a, b in flags) + "]\n"
+        + parens_guard_from_ast(chk)
         + "end SqlglotModel.Generated.C06\n"
     )
 
@@ -535,10 +620,51 @@ def templates(rng, cols):
     return rng.choice(t)
 
 
+# every parent kind x every child kind for Paren removal: a parenthesised child as subject / member of IN, BETWEEN
+# subject / bound, operand of comparisons, IS, arithmetic, unary minus, NOT, connectors, function arguments, CASE operands
+PAREN_CHILDREN_BOOL = ["i0 < i1", "i0 = 1", "i0 <> i1", "i0 IS NULL", "NOT b0", "b0 AND b1", "b0 OR b1", "i0 IN (1, 2)",
+                       "i0 BETWEEN 1 AND 2", "b0", "i0 + 1 < 3", "NOT i0 <= i1", "i0 IS NOT NULL"]
+PAREN_CHILDREN_INT = ["i0 + 1", "i0 - 1", "i0 * 2", "-i0", "i0", "2", "CASE WHEN b0 THEN 1 ELSE 2 END", "COALESCE(i0, 1)", "i0 - i1 - 1"]
+PAREN_PARENTS = [  # (template, kind of hole: b / i)
+    ("({X}) IN (b1, FALSE)", "b"), ("b1 IN (({X}), TRUE)", "b"), ("NOT ({X}) IN (b1, b2)", "b"), ("({X}) NOT IN (b1)", "b"),
+    ("({X}) BETWEEN b1 AND b2", "b"), ("b1 BETWEEN ({X}) AND b2", "b"), ("b1 BETWEEN b2 AND ({X})", "b"),
+    ("({X}) = b1", "b"), ("b1 = ({X})", "b"), ("({X}) <> b1", "b"), ("({X}) < b1", "b"), ("b1 >= ({X})", "b"),
+    ("({X}) IS NULL", "b"), ("({X}) IS TRUE", "b"), ("NOT ({X}) IS NULL", "b"),
+    ("NOT ({X})", "b"), ("({X}) AND b1", "b"), ("b1 OR ({X})", "b"), ("b1 AND ({X}) AND b2", "b"),
+    ("COALESCE(({X}), b1)", "b"), ("CASE WHEN ({X}) THEN b1 ELSE b2 END", "b"), ("CASE ({X}) WHEN TRUE THEN 1 ELSE 2 END", "b"),
+    ("IF(({X}), 1, 2)", "b"), ("CASE WHEN b1 THEN ({X}) END", "b"),
+    ("({X}) + 1", "b"), ("1 - ({X})", "b"), ("({X}) * 2", "b"), ("-({X})", "b"),
+    ("({X}) + 1", "i"), ("1 + ({X})", "i"), ("({X}) - 1", "i"), ("5 - ({X})", "i"), ("({X}) * 2", "i"), ("2 * ({X})", "i"), ("-({X})", "i"),
+    ("({X}) < 3", "i"), ("3 <= ({X})", "i"), ("({X}) = i1", "i"), ("({X}) IS NULL", "i"), ("({X}) IN (1, i1)", "i"), ("i1 IN (({X}), 2)", "i"),
+    ("({X}) BETWEEN 0 AND 3", "i"), ("i1 BETWEEN ({X}) AND 3", "i"), ("i1 BETWEEN 0 AND ({X})", "i"),
+    ("COALESCE(({X}), 1)", "i"), ("CASE ({X}) WHEN 1 THEN 2 ELSE 3 END", "i"), ("CASE WHEN b0 THEN ({X}) ELSE 0 END", "i"),
+]
+
+
+def paren_cases():
+    for tpl, kind in PAREN_PARENTS:
+        for child in (PAREN_CHILDREN_BOOL if kind == "b" else PAREN_CHILDREN_INT):
+            yield tpl.replace("{X}", child)
+
+
+def paren_template(rng):
+    tpl, kind = rng.choice(PAREN_PARENTS)
+    child = rng.choice(PAREN_CHILDREN_BOOL if kind == "b" else PAREN_CHILDREN_INT)
+    s = tpl.replace("{X}", child)
+    r = rng.random()
+    if r < 0.25:
+        return f"NOT ({s})" if kind == "b" or "IN" in tpl or "=" in tpl or "<" in tpl or "IS" in tpl or "BETWEEN" in tpl else s
+    if r < 0.45:
+        return f"({s}) = {rng.choice(['b2', 'TRUE'])}" if not s.startswith("-") else s
+    return s
+
+
 def gen_sql(rng, nonnull=False):
     cols = {"b": BCOLS + (NB * 3 if nonnull else []), "i": ICOLS + (NI * 2 if nonnull else [])}
     r = rng.random()
-    if r < 0.22:
+    if r < 0.12:
+        return paren_template(rng)
+    if r < 0.30:
         return multipass_template(rng, cols)
     if r < 0.50:
         return templates(rng, cols)
@@ -684,6 +810,33 @@ def pk_of(p):
 
 
 # ------------------------------------------------------------------------------------------ rule observer
+def parent_context(node, with_paren, without_paren):
+    """(parent with `(x)` in node's slot, parent with `x` in node's slot): the smallest text context of a dropped Paren"""
+    exp, _, _ = sg()
+    parent = node.parent
+    slot = None
+    for k, v in parent.args.items():
+        if isinstance(v, list):
+            for i, c in enumerate(v):
+                if c is node:
+                    slot = (k, i)
+        elif v is node:
+            slot = (k, None)
+    if slot is None and node.arg_key in parent.args:
+        slot = (node.arg_key, node.index)
+    if slot is None:
+        raise LookupError("slot")
+
+    def build(child):
+        pc = parent.copy()
+        tgt = pc.args[slot[0]]
+        if slot[1] is not None:
+            tgt = tgt[slot[1]]
+        tgt.replace(child.copy())
+        return pc
+    return build(with_paren), build(without_paren)
+
+
 class Observer:
     """wraps every rule of the pipeline (methods of Simplifier and the module-level rule functions) — harness side only"""
 
@@ -742,6 +895,11 @@ class Observer:
             before = expression.copy(); ctx = obs._ctx(expression, args)
             out = orig(expression, *args, **kwargs)
             obs.log.append((label or name, ctx, before, out.copy() if isinstance(out, exp.Expr) else out))
+            if name == "simplify_parens" and out is not expression and isinstance(out, exp.Expr) and expression.parent is not None:
+                try:
+                    obs.log.append(("parens_text", {"pk": pk_of(expression.parent), "ck": pk_of(out)}) + parent_context(expression, before, out))
+                except Exception:  # parent pointers can be stale inside the pipeline: the end-to-end text check still applies
+                    pass
             return out
         setattr(mod, name, w)
 
@@ -917,10 +1075,40 @@ def step_pairs(log):
             if name == "_simplify_binary" and cls is exp.Sub and not ctx["sp"]:
                 continue
             yield name, ctx, be, after
-        elif rule == "flat":
+        elif rule in ("flat", "parens_text"):
             continue
         elif isinstance(after, exp.Expr) and before != after:
             yield rule, ctx, before, after
+
+
+TEXT_DIALECTS = ["duckdb", "postgres", "mysql"]
+
+
+def text_differs(ref, tree, dialect):
+    """does `tree`, printed in `dialect` and parsed again, still mean `ref`?  None = yes; ('input-unstable',) when `ref`
+    itself does not survive the round trip (a printer / parser matter, property C01, not simplify's)"""
+    import sqlglot
+    try:
+        ref_rt = sqlglot.parse_one(ref.sql(dialect=dialect), read=dialect)
+        st, res = differing_envs(ref, ref_rt)
+        if st != "ok" or res:
+            return ("input-unstable", "")
+    except Exception:
+        return ("input-unstable", "")
+    text = tree.sql(dialect=dialect)
+    try:
+        rt = sqlglot.parse_one(text, read=dialect)
+    except Exception as ex:
+        return ("unparsable", f"does not parse ({type(ex).__name__})")
+    if rt == tree:
+        return None
+    st, res = differing_envs(ref, rt)
+    if st != "ok":
+        return (st, "")
+    if res:
+        env, u, v = res[0]
+        return ("differs", f"parses back as `{rt.sql(dialect=dialect)}` with another grouping: {u!r} vs {v!r} under {env}")
+    return None
 
 
 def step_differs(fa, fb, env):
@@ -985,6 +1173,35 @@ def check_input(chk: Check, sql, variant, api, dialect, report=True):
             viols.append({"key": f"{api}:e2e:{skeleton(e)}=>{skeleton(out)}", "rule": api, "kind": classify(unexplained),
                           "what": f"{api}: `{e.sql()}` -> `{out.sql()}` differs under {env}: {u!r} vs {v!r}, not explained by a violating step",
                           "replay": {"sql": sql, "variant": variant, "api": api, "dialect": dialect, "env": env}, "size": 10 ** 6})
+    # text level: what simplify / normalize return is used AS SQL — grouping lives in Paren nodes, so the result must mean
+    # the same after printing and parsing again (base dialect and one more)
+    text_viols = []
+    for rule, ctx, pb, pa in log:
+        if rule != "parens_text":
+            continue
+        for td in (None, TEXT_DIALECTS[zlib.crc32(sql.encode()) % len(TEXT_DIALECTS)]):
+            r = text_differs(pb, pa, td)
+            chk.count(f"text:step:{'ok' if r is None else r[0]}")
+            if r is not None and r[0] in ("differs", "unparsable"):
+                text_viols.append({"key": f"simplify_parens:text:{ctx['pk']}({ctx['ck']})", "rule": "simplify_parens", "kind": "text-" + r[0],
+                                   "what": f"step simplify_parens drops the parentheses of `{pb.sql(dialect=td)}`: `{pa.sql(dialect=td)}` {r[1]} (dialect {td})",
+                                   "replay": {"sql": sql, "variant": variant, "api": api, "dialect": dialect, "rule": "simplify_parens",
+                                              "before": pb.sql(dialect=td), "after": pa.sql(dialect=td), "text_dialect": td}, "size": len(pb.sql())})
+                break
+    if st == "ok" and not res:
+        for td in (None, TEXT_DIALECTS[zlib.crc32(sql.encode()) % len(TEXT_DIALECTS)]):
+            r = text_differs(e, out, td)
+            chk.count(f"text:e2e:{'ok' if r is None else r[0]}")
+            if r is not None and r[0] in ("differs", "unparsable") and not text_viols:
+                text_viols.append({"key": f"{api}:text:{skeleton(e)}=>{skeleton(out)}", "rule": api, "kind": "text-" + r[0],
+                                   "what": f"{api}: `{e.sql()}` -> `{out.sql(dialect=td)}` {r[1]} (dialect {td}); the returned tree itself evaluates like the input",
+                                   "replay": {"sql": sql, "variant": variant, "api": api, "dialect": dialect, "text_dialect": td}, "size": 10 ** 6})
+                break
+    seen_text = set()
+    for v in text_viols:
+        if v["key"] not in seen_text:
+            seen_text.add(v["key"])
+            viols.append(v)
     if api in ("cnf", "dnf"):
         dnf = api == "dnf"
         if not (in_normal_form(out, dnf) or out == e or between_rewritten(out) == between_rewritten(e)):
@@ -1079,6 +1296,8 @@ def correspond(chk: Check, logs, e2e_norm):
     lines, expect, what = [], [], []
     seen = set()
     for rule, ctx, before, after in logs:
+        if rule == "parens_text":
+            continue
         try:
             r = model_request(rule, ctx, before, after)
         except NotInFragment:
@@ -1194,6 +1413,65 @@ def canon(j):
             return uniq[0]
         return [t] + sorted(uniq, key=lambda x: json.dumps(x))
     return [t] + [canon(x) if isinstance(x, list) else x for x in j[1:]]
+
+
+def pkind_of(n):
+    exp, _, _ = sg()
+    if n is None:
+        return "none"
+    m = {exp.Or: "or", exp.And: "and", exp.Not: "not", exp.EQ: "eq", exp.NEQ: "eq", exp.LT: "rel", exp.LTE: "rel", exp.GT: "rel",
+         exp.GTE: "rel", exp.Is: "is", exp.Between: "between", exp.In: "inList", exp.Add: "add", exp.Sub: "sub", exp.Mul: "mul",
+         exp.Neg: "neg", exp.Paren: "paren", exp.Column: "atom", exp.Literal: "atom", exp.Boolean: "atom", exp.Null: "atom",
+         exp.Coalesce: "func", exp.Case: "func", exp.If: "func"}
+    return m.get(type(n))
+
+
+def validate_reparse_table(chk: Check):
+    """the hand-written `reparseSafe` table (Model/Simplify.lean) against the real parser: for every parent slot x child
+    kind of the Paren sweep, does the text WITHOUT the parentheses parse back with the same meaning?"""
+    import sqlglot
+    exp, _, _ = sg()
+    lines, facts = [], []
+    for tpl, kind in PAREN_PARENTS:
+        marker = sqlglot.parse_one(tpl.replace("{X}", "zz"))
+        par = next((p for p in marker.find_all(exp.Paren) if isinstance(p.this, exp.Column) and p.this.name == "zz"), None)
+        if par is None:
+            continue
+        pk = pkind_of(par.parent)
+        pos = {"this": 0, "expression": 1, "low": 1, "high": 2, "expressions": 1, "true": 1, "false": 1, "default": 1, "ifs": 1}.get(par.arg_key, 0)
+        if isinstance(par.parent, (exp.Coalesce, exp.Case, exp.If)):
+            pos = 1
+        for child in (PAREN_CHILDREN_BOOL if kind == "b" else PAREN_CHILDREN_INT):
+            ck = pkind_of(sqlglot.parse_one(child))
+            if pk is None or ck is None:
+                continue
+            a1 = sqlglot.parse_one(tpl.replace("{X}", child))
+            try:
+                # print the tree with that one Paren node removed (the printer's own spacing, e.g. `- -x`), parse again
+                a1c = a1.copy()
+                cj = sqlglot.parse_one(child)
+                tgt = next(p for p in a1c.find_all(exp.Paren) if p.this == cj and pkind_of(p.parent) == pk)
+                tgt.replace(tgt.this)
+                a2 = sqlglot.parse_one(a1c.sql())
+                st, res = differing_envs(a1, a2)
+                actual = st == "ok" and not res
+            except Exception:
+                actual = False
+            lines.append(json.dumps({"op": "reparse_safe", "p": pk, "pos": pos, "c": ck}))
+            facts.append((tpl, child, pk, pos, ck, actual))
+    got = chk.driver("C06", lines)
+    chk.corr_cases += len(lines)
+    conservative = 0
+    seen = set()
+    for g, (tpl, child, pk, pos, ck, actual) in zip(got, facts):
+        model = json.loads(g)
+        seen.add((pk, pos, ck))
+        if model is True and not actual:
+            chk.correspondence_broken("reparseSafe table claims a slot safe that the real parser regroups",
+                                      {"template": tpl, "child": child, "parent_kind": pk, "pos": pos, "child_kind": ck})
+        elif model is False and actual:
+            conservative += 1
+    chk.cov["reparse_table_validation"] = {"cases": len(lines), "distinct_slots": len(seen), "model_conservative": conservative}
 
 
 def evaluator_differential(chk: Check, sqls):
@@ -1355,6 +1633,11 @@ def run(chk: Check) -> None:
         for o2 in RANGE:
             one(f"i0 = 2 + 3 AND i0 {o1} i1 AND i1 {o2} 7", "untyped", "simplify_cp", dlist[0])
             one(f"i0 = 5 - 3 - 1 AND i0 {o1} i0 * i1 AND i0 * i1 {o2} 7", "untyped", "simplify_cp", dlist[0])
+    # Paren-removal sweep: every parent kind x child kind (sampled in quick; the IN / BETWEEN / arithmetic parents always)
+    for q in paren_cases():
+        if chk.quick and rng.random() > 0.45:
+            continue
+        one(q, "untyped", "simplify", dlist[0])
     chk.cov["sweep_s"] = round(time.time() - t0, 1)
     t_rand = time.time()
     while time.time() - t_rand < budget * 0.45 and len(chk.violations) < 6:
@@ -1381,6 +1664,7 @@ def run(chk: Check) -> None:
     hints = []
     try:
         evaluator_differential(chk, sqls[: chk.pick(300, 3000)])
+        validate_reparse_table(chk)
         hints = correspond(chk, all_logs, e2e_norm)
     except HarnessError as ex:
         if proved and "driver" not in str(ex):
